@@ -198,10 +198,13 @@ structure ReqF where
   headers : List (Bytes × Bytes)     -- (lower-cased name, folded value)
 deriving DecidableEq, Repr
 
+/-- what `_hash` adds to the key for the content: either `str(raw_content)`, or one tuple per non-ignored
+    form field.  Multipart fields are tuples of `bytes`, urlencoded fields tuples of `str` (the `Bool` tag), so
+    fields of different kinds never compare equal — but two forms without any non-ignored field both add
+    nothing, whatever their kind. -/
 inductive Content where
   | body (b : Option Bytes)
-  | mform (l : List (Bytes × Bytes))
-  | uform (l : List (Bytes × Bytes))
+  | form (l : List (Bool × Bytes × Bytes))
 deriving DecidableEq, Repr
 
 structure MKey where
@@ -220,9 +223,9 @@ def hdrGet (hs : List (Bytes × Bytes)) (name : Bytes) : Option Bytes :=
 
 def contentOf (o : HashOpts) (r : ReqF) : Content :=
   if !o.ignorePayloadParams.isEmpty && !r.multipart.isEmpty then
-    .mform (r.multipart.filter (fun p => !o.ignorePayloadParams.contains p.1))
+    .form ((r.multipart.filter (fun p => !o.ignorePayloadParams.contains p.1)).map (fun p => (true, p.1, p.2)))
   else if !o.ignorePayloadParams.isEmpty && !r.urlencoded.isEmpty then
-    .uform (r.urlencoded.filter (fun p => !o.ignorePayloadParams.contains p.1))
+    .form ((r.urlencoded.filter (fun p => !o.ignorePayloadParams.contains p.1)).map (fun p => (false, p.1, p.2)))
   else .body r.body
 
 /-- `ServerPlayback._hash` up to `repr`/SHA-256 -/
